@@ -117,7 +117,7 @@ func checkGuarded(p *load.Program, r *kit.Report, rule string, funcs []*ssa.Func
 				if g.ByRecv && len(f.Params) > 0 {
 					base = li.Key(f.Params[0])
 				}
-				lock := base + "." + g.Mutex
+				lock := base + "." + curName(p, g.Mutex)
 				if li.Holds(a.in, lock, a.write) {
 					r.OK(rule, key, posOf(p, a.in), "%s of %s under %s", mode, g.Field.Name(), lock)
 				} else {
